@@ -484,17 +484,52 @@ def replay_kv_script(ctx, payload, features=None):
     return not ok
 
 
-def run_crash(ctx, runs, steps, profile="crash", tag="crash", extra=None):
+def recover_stats(trace):
+    """what the open-decision records cover (for the evidence and against vacuity)"""
+    k = {"records": 0, "images": 0, "refused": 0, "quick_path": 0, "repair_commit": 0, "fell_back_to_other_slot": 0, "picked_newer_secondary": 0,
+         "bad_slot_checksum": 0, "unservable_slot": 0, "two_phase_flag": 0, "layout_rebuilt_from_length": 0, "length_no_layout": 0}
+    for l in open(trace):
+        r = json.loads(l)
+        pre, post = r["pre"], r["post"]
+        k["records"] += 1
+        k["images"] += r.get("n", 1)
+        k["bad_slot_checksum"] += any(not s["hok"] for s in pre["slots"])
+        k["unservable_slot"] += any(not s["serv"] for s in pre["slots"])
+        k["two_phase_flag"] += bool(pre["tpc"])
+        if post["err"]:
+            k["refused"] += 1
+            continue
+        k["layout_rebuilt_from_length"] += (post["full"], post["trailing"]) != (pre["full"], pre["trailing"])
+        unchanged = all(post["slots"][i]["txn"] == pre["slots"][i]["txn"] and post["slots"][i]["eq"][i] for i in range(2))
+        if unchanged and post["primary"] == pre["primary"]:
+            k["quick_path"] += 1
+        else:
+            k["repair_commit"] += 1
+            chosen = 3 - post["primary"]
+            if chosen != pre["primary"]:
+                newer = pre["slots"][chosen - 1]["txn"] > pre["slots"][pre["primary"] - 1]["txn"]
+                k["picked_newer_secondary" if newer and pre["slots"][chosen - 1]["hok"] and pre["slots"][pre["primary"] - 1]["hok"] else "fell_back_to_other_slot"] += 1
+    return k
+
+
+def run_crash(ctx, runs, steps, profile="crash", tag="crash", extra=None, recover_every=0):
     """Random histories on a recording backend; every crash image of every point of the
-    operation stream is reopened with the real code; TLC judges the probes (Kv!CrashAtomic)"""
+    operation stream is reopened with the real code; TLC judges the probes (Kv!CrashAtomic).
+    recover_every > 0: for every n-th image, what the open decided (header before and after) is judged by
+    RecoverTrace.tla as well"""
     trace = os.path.join(ctx.work, f"{tag}.ndjson")
     scripts = os.path.join(ctx.work, f"{tag}-scripts.ndjson")
+    rtrace = os.path.join(ctx.work, f"{tag}-recover.ndjson")
     cmd = [bin_path("crash"), "--seed", str(ctx.seed), "--runs", str(runs), "--steps", str(steps), "--tier", ctx.tier,
            "--profile", profile, "--out", trace, "--scripts-out", scripts]
+    if recover_every:
+        cmd += ["--recover-every", str(recover_every), "--recover-out", rtrace]
     if extra:
         cmd += extra
     p = sh(cmd, timeout=7200)
     stats = json.loads(p.stdout.strip().splitlines()[-1])
+    if recover_every:
+        check_recover_trace(ctx, rtrace, scripts, profile, tag)
     log(f"crash {tag}: {stats['images']} images (+{stats['second_level_images']} during recovery) at {stats['crash_points']} crash points, "
         f"{stats['distinct_probes']} distinct outcomes, {p.wall:.1f}s")
     ok, info = tlc_trace(ctx, "KvTrace", trace)
@@ -528,8 +563,89 @@ def run_crash(ctx, runs, steps, profile="crash", tag="crash", extra=None):
     raise Violation(ctx.prop, path, what, sig)
 
 
+def check_recover_trace(ctx, rtrace, scripts, profile, tag):
+    rs = recover_stats(rtrace)
+    ok, info = tlc_trace_generic(ctx, "RecoverTrace", rtrace)
+    ctx.cov["evaluations"] += rs["images"]
+    ctx.cov["distinct_nontrivial"] += rs["records"]
+    ctx.notes[f"open_decisions_{tag}"] = rs
+    if ok:
+        log(f"open decisions {tag}: {rs['images']} images, {rs['records']} distinct: {rs['repair_commit']} repair commits ({rs['picked_newer_secondary']} took the newer "
+            f"secondary, {rs['fell_back_to_other_slot']} fell back), {rs['quick_path']} quick, {rs['refused']} refused")
+        if rs["repair_commit"] < 5 or rs["picked_newer_secondary"] < 1:
+            raise ToolError(f"vacuity: the open-decision records hardly exercise the recovery: {rs}")
+        # the binding has teeth: the same records with the chosen slot swapped / a refusal turned into success are rejected
+        lines = [json.loads(l) for l in open(rtrace)]
+        for name, mutate in (("other slot chosen", lambda r: r["post"].__setitem__("primary", 3 - r["post"]["primary"])),
+                             ("older id kept", lambda r: r["post"]["slots"][r["post"]["primary"] - 1].__setitem__("txn", r["post"]["slots"][r["post"]["primary"] - 1]["txn"] - 1))):
+            idx = next(i for i, r in enumerate(lines) if not r["post"]["err"])
+            bad = json.loads(json.dumps(lines))
+            mutate(bad[idx])
+            btrace = rtrace + ".mut"
+            with open(btrace, "w") as f:
+                for r in bad:
+                    f.write(json.dumps(r) + "\n")
+            ok2, info2 = tlc_trace_generic(ctx, "RecoverTrace", btrace)
+            if ok2 or info2["line"] != idx + 1:
+                raise ToolError(f"self-test failed: RecoverTrace accepts a record altered to '{name}'")
+        ctx.notes.setdefault("binding_selftests", []).append("RecoverTrace rejects a record whose chosen slot / new transaction id is altered")
+        return rs
+    rec = info["record"]
+    script = None
+    for l in open(scripts):
+        j = json.loads(l)
+        if j["run"] == rec["run"]:
+            script = j
+    what = (f"crash at backend operation {rec['at']} (run {rec['run']}, case {json.dumps(rec['case'])}): opening the image decided differently from "
+            f"RecoverOps.tla: before {json.dumps(rec['pre'])}, after {json.dumps(rec['post'])}")
+    sig = "recover:" + hashlib.sha256(json.dumps([script["cfg"], script["steps"], rec["at"], rec["case"]], sort_keys=True).encode()).hexdigest()[:16]
+    payload = {"property": ctx.prop, "kind": "crash-case", "cfg": script["cfg"], "steps": script["steps"], "at": rec["at"], "case": rec["case"],
+               "depth": 1, "inner": None, "what": what, "signature": sig, "profile": profile, "recover": True}
+    raise Violation(ctx.prop, save_replay(ctx.prop, payload), what, sig)
+
+
+def run_opencases(ctx, page_sizes=(512,)):
+    """Specification -> implementation for the open-time decisions: every combination of the inputs Recover.tla quantifies
+    over (flags, primary, slot checksums, order of the ids, trees verifying, saved allocator state, file length vs region counts)
+    is realised as a file, opened by the real code, and the header before/after judged by RecoverTrace.tla"""
+    for ps in page_sizes:
+        trace = os.path.join(ctx.work, f"opencases-{ps}.ndjson")
+        p = sh([bin_path("opencases"), "--page-size", str(ps), "--out", trace], timeout=1800)
+        stats = json.loads(p.stdout.strip().splitlines()[-1])
+        rs = recover_stats(trace)
+        classes = set()
+        for l in open(trace):
+            pre = json.loads(l)["pre"]
+            a, b = pre["slots"][0]["txn"], pre["slots"][1]["txn"]
+            classes.add((pre["rec"], pre["tpc"], pre["primary"], pre["slots"][0]["hok"], pre["slots"][1]["hok"], pre["slots"][0]["serv"], pre["slots"][1]["serv"],
+                         (a > b) - (a < b)))
+        if len(classes) != 384:
+            raise ToolError(f"opencases realised {len(classes)} of the 384 input classes of Recover.tla")
+        ok, info = tlc_trace_generic(ctx, "RecoverTrace", trace)
+        ctx.cov["evaluations"] += stats["images"]
+        ctx.cov["distinct_nontrivial"] += stats["distinct"]
+        ctx.notes[f"open_cases_page_{ps}"] = dict(rs, input_classes_of_Recover_tla=len(classes), panics=stats["panics"])
+        if not ok:
+            rec = info["record"]
+            what = (f"opening a file built for the case {json.dumps(rec['case'])} (page size {ps}) decided differently from RecoverOps.tla: "
+                    f"before {json.dumps(rec['pre'])}, after {json.dumps(rec['post'])}")
+            sig = "opencases:" + hashlib.sha256(json.dumps([ps, rec["case"]], sort_keys=True).encode()).hexdigest()[:16]
+            payload = {"property": ctx.prop, "kind": "contract-opencases", "page_size": ps, "case": rec["case"], "what": what, "signature": sig}
+            raise Violation(ctx.prop, save_replay(ctx.prop, payload), what, sig)
+        ctx.cov["traces_validated_against_impl"] += 1
+        log(f"open cases (page size {ps}): {stats['images']} files for all 384 input classes, {stats['distinct']} distinct records: {rs['refused']} refused, "
+            f"{rs['quick_path']} quick, {rs['repair_commit']} repaired ({rs['fell_back_to_other_slot']} fell back, {rs['picked_newer_secondary']} took the newer secondary)")
+
+
 def replay_crash_case(ctx, replay_path):
     trace = os.path.join(ctx.work, "replay-crash.ndjson")
+    if json.load(open(replay_path)).get("recover"):
+        rtrace = os.path.join(ctx.work, "replay-recover.ndjson")
+        sh([bin_path("crash"), "--replay", replay_path, "--out", trace, "--recover-every", "1", "--recover-out", rtrace], timeout=1200)
+        ok, info = tlc_trace_generic(ctx, "RecoverTrace", rtrace)
+        if not ok:
+            log("replay still rejected:", json.dumps(info["record"])[:400])
+        return not ok
     sh([bin_path("crash"), "--replay", replay_path, "--out", trace], timeout=1200)
     ok, info = tlc_trace(ctx, "KvTrace", trace)
     if not ok:
@@ -776,6 +892,38 @@ def run_contract_race(ctx):
     raise Violation(ctx.prop, save_replay(ctx.prop, payload), what, sig)
 
 
+def run_contract_cut(ctx):
+    """A file with a recovery pending, cut short from outside by k pages below the highest page its commit points use:
+    one trace per k (a known finding unless every trace is accepted)"""
+    sig = "C20/read-beyond-end-of-cut-file"
+    listed = {k["property"] + "/" + k["signature"]: k for k in load_known() if k["kind"] == "known"}
+    outcomes = {}
+    for k in (0, 1, 2, 5, 12):
+        trace = os.path.join(ctx.work, f"contract-cut-{k}.ndjson")
+        p = sh([bin_path("contract"), "--cut", str(k), "--seed", str(ctx.seed), "--out", trace], timeout=600)
+        stats = json.loads(p.stdout.strip().splitlines()[-1])
+        ok, info = tlc_trace_generic(ctx, "BackendTrace", trace)
+        ctx.cov["evaluations"] += stats["backend_calls"]
+        ctx.cov["distinct_nontrivial"] += 1
+        outcomes[k] = {"open": stats["outcome"], "accepted": ok}
+        if ok:
+            ctx.cov["traces_validated_against_impl"] += 1
+            continue
+        rec = info["record"]
+        if rec.get("sc") == "dirty-file-cut" and rec.get("e") == "read" and sig in listed:
+            kf = listed[sig]
+            line = f"property={kf['property']} {kf['what']}"
+            if line not in ctx.known_hits:
+                ctx.known_hits.append(line)
+            continue
+        what = f"file cut by {k} pages while a recovery is pending: BackendTrace rejects {json.dumps(rec)}"
+        payload = {"property": ctx.prop, "kind": "contract-cut", "k": k, "what": what, "signature": f"contract:dirty-file-cut:{rec.get('e')}"}
+        raise Violation(ctx.prop, save_replay(ctx.prop, payload), what, payload["signature"])
+    if not outcomes[0]["accepted"]:
+        raise ToolError("the uncut file must open within the contract")
+    ctx.notes["dirty_file_cut"] = outcomes
+
+
 def run_readonly_strace(ctx):
     """A read-only database on a real file, under strace: its system calls on the file become
     backend events of a read-only backend"""
@@ -1011,6 +1159,9 @@ def commit_design(ctx):
     # a persistent savepoint over non-durable commits: lost without the pre-flush, with or without two-phase commit
     tlc_expect_violation(ctx, "Commit", "MC_Commit_sp1pc.cfg", "RecoveryOk", workers=4)
     tlc_expect_violation(ctx, "Commit", "MC_Commit_sp2pc.cfg", "RecoveryOk", workers=4)
+    # opening a file, step by step, over every header an interrupted run can leave (the decisions Commit.tla's Crash uses)
+    tlc_check(ctx, "Recover", "MC_Recover.cfg", workers=4, timeout=600)
+    tlc_expect_violation(ctx, "Recover", "MC_Recover_nonewer.cfg", "Newest", workers=2)
 
 
 def run_commitio(ctx, runs, steps, profile="crash"):
@@ -1045,8 +1196,9 @@ def check_C01(ctx):
         run_commitio(ctx, tiered(ctx, 4, 40), tiered(ctx, 200, 400), profile=profile)
     if st0["commits"] < 100:
         raise ToolError(f"vacuity: too few commits in the protocol traces: {st0}")
+    run_opencases(ctx, tiered(ctx, (512,), (512, 1024, 4096)))
     runs, steps = tiered(ctx, (12, 150), (60, 250))
-    st = run_crash(ctx, runs, steps)
+    st = run_crash(ctx, runs, steps, recover_every=tiered(ctx, 3, 4))
     if st["probes_inside_commit"] < 10:
         raise ToolError("vacuity: hardly any crash probe fell inside a commit")
     ctx.assumptions += ["storage model of docs/design.md: fsync makes earlier writes durable, single-byte atomicity, powersafe overwrite; "
@@ -1068,7 +1220,13 @@ def check_C01(ctx):
                      "'first flush of 2PC does not reach the storage', 'recovery ignores a newer secondary' and 'a transaction that created "
                      "a persistent savepoint commits without writing its pages out first (one-phase or two-phase)' are caught. code: every "
                      "backend call of further histories (header writes decoded) is validated as a behaviour of Commit.tla "
-                     "(CommitTrace.tla).")
+                     "(CommitTrace.tla). recovery decisions: Recover.tla takes the open apart into its header-writing steps over every "
+                     "header an interrupted run can leave (Sound, Newest, Available, Restartable); for every 3rd/4th crash image the header "
+                     "before (flags, both slots' checksum / id / do the trees verify per the independent decoder, file length vs region "
+                     "counts) and after the real open are recorded and RecoverTrace.tla accepts the record iff the code refused / chose / "
+                     "rewrote exactly as RecoverOps.tla (the operators Commit.tla's Crash uses) says; and spec -> impl: every one of the 384 input "
+                     "classes of Recover.tla (x 7 length/region-count variants x saved allocator state or none) is realised as a file, opened, "
+                     "and judged the same way (refusals, the quick path, fallbacks included - crash images alone never reach the refusals).")
 
 
 def pager_design(ctx):
@@ -1313,6 +1471,7 @@ def check_C20(ctx):
     run_contract(ctx, tiered(ctx, 6, 60), tiered(ctx, 300, 1000))
     run_readonly_strace(ctx)
     run_contract_race(ctx)
+    run_contract_cut(ctx)
     ctx.assumptions += ["the read-only database is observed through strace on a real file (redb offers no read-only open on a custom backend)",
                         "calls that were already in flight when close() begins are not distinguished from calls that begin after it returned: the "
                         "monitor is sequentially consistent (one mutex)"]
@@ -1323,7 +1482,9 @@ def check_C20(ctx):
                      "lengths, torn geometry, both slots corrupt, aborted repair, an I/O error at EVERY call of a repairing open, permanent and "
                      "once), of a Database dropped while a write transaction is live (commit/abort/drop afterwards, readers outliving it) is "
                      "validated by TLC against Backend.tla; system calls of a read-only file database (strace) likewise; a reader forced between "
-                     "the closed-check and the backend call while the Database is dropped (pause point) - a known finding. non-trivial = scenarios")
+                     "the closed-check and the backend call while the Database is dropped (pause point) - a known finding; a file with a recovery "
+                     "pending that was cut by k pages below the highest page its commit points use (the layout is rebuilt from the length, the "
+                     "slots still name pages beyond it) - a known finding. non-trivial = scenarios")
 
 
 def check_C15(ctx):
@@ -1554,7 +1715,7 @@ def check_C11(ctx):
     # design: a crash inside any critical section of the page-ownership model, recovery = rebuild from the durable commit
     tlc_check(ctx, "PagerCrash", "MC_PagerCrash.cfg", workers=8, timeout=3600)
     tlc_expect_violation(ctx, "PagerCrash", "MC_PagerCrash_bad.cfg", "Owner1", workers=4)
-    st = run_crash(ctx, tiered(ctx, 10, 50), tiered(ctx, 140, 250), extra=["--second-every", str(tiered(ctx, 31, 11))])
+    st = run_crash(ctx, tiered(ctx, 10, 50), tiered(ctx, 140, 250), extra=["--second-every", str(tiered(ctx, 31, 11))], recover_every=tiered(ctx, 3, 4))
     run_kv_walk(ctx, "reopen", tiered(ctx, 24, 240), tiered(ctx, 500, 1500), page_sizes="512,1024,4096", caches="1048576,0")
     run_kv_walk(ctx, "reopen", tiered(ctx, 6, 60), 800, page_sizes="512", caches="1048576", tag="reopen-regions", extra=["--region-size", "65536"], nkeys=200)
     k = ctx.notes.get("event_kinds", {})
